@@ -99,6 +99,20 @@ func runIncentives(t *testing.T, seed int64, n int, dir string) {
 		lk := h.App.LockupKeeper
 		bk := h.App.BankKeeper
 		lms := lockupkeeper.NewMsgServerImpl(lk)
+		// magnitude class of this history: now and then lock amounts and gauge coins around 2^118..2^134 each (valid
+		// bank amounts whose PRODUCT exceeds 2^256: only the quotient of the share computation has to fit)
+		huge := r.Intn(7) == 0
+		if huge {
+			o.Count("history.huge-magnitudes")
+		}
+		scaleUp := func(a int64) *big.Int {
+			v := big.NewInt(a)
+			if huge && r.Intn(5) != 0 {
+				v.Lsh(v, uint(110+r.Intn(14)))
+				v.Add(v, big.NewInt(int64(r.Intn(1000))))
+			}
+			return v
+		}
 		now := time.Unix(1_700_000_000, 0).UTC().Add(time.Duration(r.Intn(1000)) * time.Second)
 		h.Ctx = h.Ctx.WithBlockTime(now)
 		modAddr := h.App.AccountKeeper.GetModuleAddress(incentivestypes.ModuleName)
@@ -285,7 +299,7 @@ func runIncentives(t *testing.T, seed int64, n int, dir string) {
 				default:
 					a = int64(1 + r.Intn(50_000))
 				}
-				cs = cs.Add(sdk.NewCoin(d, osmomath.NewInt(a)))
+				cs = cs.Add(sdk.NewCoin(d, osmomath.NewIntFromBigInt(scaleUp(a))))
 			}
 			return cs
 		}
@@ -436,7 +450,8 @@ func runIncentives(t *testing.T, seed int64, n int, dir string) {
 					if r.Intn(4) == 0 {
 						amt = int64(1+r.Intn(5)) * 100
 					}
-					coins := sdk.NewCoins(sdk.NewCoin(denom, osmomath.NewInt(amt)))
+					amtB := scaleUp(amt)
+					coins := sdk.NewCoins(sdk.NewCoin(denom, osmomath.NewIntFromBigInt(amtB)))
 					h.FundAcc(addrs[ow], coins)
 					cctx, write := h.Ctx.CacheContext()
 					var resp *lockuptypes.MsgLockTokensResponse
@@ -445,10 +460,10 @@ func runIncentives(t *testing.T, seed int64, n int, dir string) {
 					if ok && err == nil {
 						write()
 						if l := book[resp.ID]; l != nil {
-							l.amt.Add(l.amt, big.NewInt(amt))
+							l.amt.Add(l.amt, amtB)
 							o.Count("lock.topup")
 						} else {
-							book[resp.ID] = &incLock{resp.ID, ow, -1, dur, denom, big.NewInt(amt), false, time.Time{}}
+							book[resp.ID] = &incLock{resp.ID, ow, -1, dur, denom, new(big.Int).Set(amtB), false, time.Time{}}
 							o.Count("lock.new")
 						}
 					} else {
